@@ -23,7 +23,7 @@ REQUIRED_COUNTERS = ["ref.optimal", "ref.infeasible", "ref.unbounded", "agree.op
                      "agree.unbounded", "check.feasibility", "check.objective", "check.multiplier.length",
                      "check.multiplier.sign", "check.lagrangian", "check.certificate.primal", "check.certificate.dual",
                      "check.none-rules", "format.sparse", "solver.glpk", "class.matrixform", "class.lp", "class.pwl",
-                     "con.equality", "con.vector-pwl", "con.constant-only", "obj.pwl", "matrixform.scalar-rhs", "obj.scaled-sum-of-max", "solve.with-stale-values"]
+                     "con.equality", "con.vector-pwl", "con.constant-only", "obj.pwl", "matrixform.scalar-rhs", "obj.scaled-sum-of-max", "solve.with-stale-values", "check.resolve-after-delete"]
 
 
 def plan(tier):
@@ -411,6 +411,30 @@ def run(ctx):
                 continue
             ctx.count("agree." + ref["status"])
             judge(c, P, ref, rv, obj, rcons, p, tag, rng)
+        # ---- the problem "that was written down" after an edit: delete one non-box constraint and solve the SAME op again
+        # (same format, so that anything solve() keeps between calls is reused); a fresh op on the remaining constraints
+        # is the reference (both by the library: only their agreement is judged, the reference status above is not used)
+        if not c.failed and results.get("dense") == "optimal" and ref["status"] == "optimal" and rng.random() < 0.5:
+            cand = [k_ for k_, c_ in enumerate(cons) if c_["tag"] != "box"]
+            if cand:
+                k_ = rng.choice(cand)
+                try:
+                    p.delconstraint(rcons[k_])
+                    o1 = outcome(p, format="dense")
+                    v1 = float((obj.value() if type(obj) is not M.variable else obj.value)[0]) if o1 == ("status", "optimal") else None
+                    fresh = M.op(obj, [rc for j_, rc in enumerate(rcons) if j_ != k_])
+                    o2 = outcome(fresh, format="dense")
+                    v2 = float((obj.value() if type(obj) is not M.variable else obj.value)[0]) if o2 == ("status", "optimal") else None
+                except Exception as e_:
+                    o1 = o2 = None
+                    ctx.count("resolve-after-delete.exception")
+                if o1 is not None and o1[0] == "status" and o2[0] == "status" and "unknown" not in (o1[1], o2[1]):
+                    ctx.count("check.resolve-after-delete")
+                    c.check()
+                    if o1 != o2 or (v1 is not None and abs(v1 - v2) > 1e-5 * max(1.0, abs(v2))):
+                        c.fail("solve:after-delconstraint-differs-from-fresh-op",
+                               "solve, delconstraint(c%d), solve again: %r value %r; a fresh op on the remaining constraints: %r value %r"
+                               % (k_, o1, v1, o2, v2))
 
     def lib_lp_optimum(p):
         """diagnostic only: HiGHS on the LP that op._inmatrixform() hands to the solver"""
